@@ -194,7 +194,8 @@ class CLEAR(_TrackingMetricsBase):
                 #     matching_threshold_,
                 # )
                 # if is_tp_prev is False or is_tp_cur is False:
-                if not is_tp_prev:
+                # NOTE: a pair with a false_positive-labelled GT is "correct" when it does NOT match; it is never a TP
+                if not is_tp_prev or prev_obj_result.ground_truth_object.semantic_label.is_fp():
                     continue
 
                 is_id_switched = self._is_id_switched(cur_obj_result, prev_obj_result)
